@@ -50,6 +50,7 @@ COMMON_ASSUMPTIONS = [
     "sequential consistency: one simulated thread runs at a time, weak-memory effects are not modelled",
     "the simulator's model of each primitive is the POSIX contract (any waiter may be woken, spurious wake-ups, late time-outs)",
     "seeded sampling of schedules/faults/workloads, not exhaustive unless a sub-space is flagged exhaustive",
+    "bounded liveness: deadlock = no thread enabled and no pending deadline; livelock = no progress event (byte moved through a simulated fd, element through a queue under test, object delivered, thread started/finished) for 600000 scheduling steps, hard cap 6*10^7 steps per run",
 ]
 
 PROPERTIES = {
